@@ -29,6 +29,10 @@ pub const EXTRA: &[&str] = &[
     "let Ret = @(intrinsic(ret)) in let Thk = @(intrinsic(thk)) in let Int64 = @(intrinsic(i64)) in (fix (_ : Thk (Int64 -> Ret Int64)) => fn x => ret x) 5",
     "let Ret = @(intrinsic(ret)) in let Thk = @(intrinsic(thk)) in let Int64 = @(intrinsic(i64)) in (fix ((f; g) : Thk (Int64 -> Ret Int64)) => fn x => ret x) 5",
     "let Ret = @(intrinsic(ret)) in let Thk = @(intrinsic(thk)) in let Int64 = @(intrinsic(i64)) in (fix (f : Thk (Int64 -> Ret Int64)) => fn _ => ret 1) 5",
+    // a match without arms on an empty data type, in code that never runs / behind a function / in an arm
+    "let Ret = @(intrinsic(ret)) in let Thk = @(intrinsic(thk)) in let Int64 = @(intrinsic(i64)) in let Void = data end in let f : Thk (Void -> Ret Int64) = { fn v => match v end } in ret 1",
+    "let Ret = @(intrinsic(ret)) in let Thk = @(intrinsic(thk)) in let Int64 = @(intrinsic(i64)) in let Unit = @(intrinsic(unit)) in let Void = data end in let E = data | +L : Int64 | +R : Void end in let e : E = +L(3) in match e | +L(n) => ret n | +R(v) => (match v end : Ret Int64) end",
+    "let Ret = @(intrinsic(ret)) in let Thk = @(intrinsic(thk)) in let Int64 = @(intrinsic(i64)) in let Void = data end in let f : Thk (Void -> Ret Int64) = { fn v => do x <- match v end; ret x } in let g : Thk (Void * Int64 -> Ret Int64) = { fn (v, n) => match v end } in ret 2",
     "let Ret = @(intrinsic(ret)) in let Int64 = @(intrinsic(i64)) in let _ = 1 in ret 2",
     "let Ret = @(intrinsic(ret)) in let Int64 = @(intrinsic(i64)) in do _ <- ret 1; ret 2",
     "let Ret = @(intrinsic(ret)) in let Int64 = @(intrinsic(i64)) in let (a; b) = 3 in ret (a, b)",
@@ -36,6 +40,28 @@ pub const EXTRA: &[&str] = &[
     "let Ret = @(intrinsic(ret)) in let Unit = @(intrinsic(unit)) in let u : Unit = () in let () = u in ret 1",
     "let Ret = @(intrinsic(ret)) in let Thk = @(intrinsic(thk)) in let Int64 = @(intrinsic(i64)) in let t : Thk (Thk (Ret Int64)) = { { ret 1 } } in do g <- ret t; ! ! g",
 ];
+/// `fix` with a variable or an alias binder, recursing through either name, entered in five ways
+/// (applied on the spot, applied inside a do bindee, destructed on the spot, through a thunk, partially
+/// applied on the spot with the rest supplied later), at
+/// recursion depths 0..2: the arguments of the first call must not reappear in the recursive ones
+pub fn recursive_fix_forms() -> Vec<String> {
+    let pre = "begin\n  let Ret = @(intrinsic(ret)) that\n  let Thk = @(intrinsic(thk)) that\n  let Unit = @(intrinsic(unit)) that\n  let Int64 = @(intrinsic(i64)) that\n  let VType = @(intrinsic(vtype)) that\n  def Nat : VType = data | +Z : Unit | +S : Nat end that\n  let Loop = codata | .run : Nat -> Int64 -> Ret Int64 end that\n";
+    let mut out = vec![];
+    for (binder, rec) in [("go", "go"), ("(go; again)", "go"), ("(go; again)", "again"), ("(again; go)", "again")] {
+        for arg in ["+Z()", "+S(+Z())", "+S(+S(+Z()))"] {
+            let f = format!("fix ({binder} : Thk (Nat -> Int64 -> Ret Int64)) => fn n acc => match n | +Z() => ret acc | +S(m) => ! {rec} m 5 end");
+            let o = format!("fix ({binder} : Thk Loop) => comatch | .run n acc => match n | +Z() => ret acc | +S(m) => ! {rec} .run m 5 end end");
+            out.push(format!("{pre}  ({f}) ({arg} : Nat) 1\nend\n"));
+            out.push(format!("{pre}  do r <- ({f}) ({arg} : Nat) 1;\n  ret (r, 9)\nend\n"));
+            out.push(format!("{pre}  ({o}) .run ({arg} : Nat) 1\nend\n"));
+            out.push(format!("{pre}  let t = {{ {f} }} in\n  ! t ({arg} : Nat) 1\nend\n"));
+            // applied to its first argument on the spot, the partial application kept in a thunk
+            out.push(format!("{pre}  let t = {{ ({f}) ({arg} : Nat) }} in\n  ! t 1\nend\n"));
+        }
+    }
+    out
+}
+
 impl Item {
     fn text(&self) -> String {
         match self {
@@ -81,6 +107,7 @@ impl Lowered {
         // the repository's own runnable fixtures (std-library style programs: packages, named products,
         // telescopes, effects), except the ones that must fail
         progs.extend(EXTRA.iter().map(|t| Item::Text(t)));
+        progs.extend(recursive_fix_forms().into_iter().map(|t| Item::Text(Box::leak(t.into_boxed_str()))));
         for p in crate::corpus::repo_sources() {
             let s = p.display().to_string();
             if s.contains("/lib/tests/") && !s.contains("/fail/") && !s.contains("/warn/") && !s.ends_with(".zyi") {
@@ -323,7 +350,7 @@ impl Check for Lowered {
     fn rule(&self) -> String {
         match self.mode {
             | Mode::Lowering => format!("every accepted program of the universe, of the System-F / F-omega universe and every runnable repository fixture under lib/tests (except fail/ and warn/) ({} programs; Ret-rooted through RootLowerer, executable-rooted through BuiltinRootLowerer): stack-IR lowering, closure conversion, assembly lowering, render_sps_low, render_assembly, emit_amd64 (ELF + Mach-O), emit_llvm (4 triples) each under catch_unwind; independent re-validation in the harness: SPSLow root closed, every block's free variables within its own label, labels unique, stack lets only around coproduct matches, comatch tags unique, product layouts positive with items <= arity and one class per field, every extern in the builtin table with the role's arity; assembly program: every fall-through, jump and jump-table target, every pushed symbol and variable, every label is defined, no symbol is left undefined, jump-table tags are unique, product layouts positive with elements <= arity and one class per word; emitted AMD64 text defines no label twice; non-trivial = programs that lowered and contain >= 1 closure package and >= 1 continuation package", self.progs.len()),
-            | Mode::Preservation => format!("every accepted program of the universe, of the System-F / F-omega universe and every runnable repository fixture under lib/tests that lowers ({} candidate programs) is run on the harness's SPSLow reference machine (layout-aware flat products, blocks closed over their own label, host operations = the repository's implementations) and on zydeco_dynamics::Runtime with the same stdin; output bytes and final result must agree; a stuck SPSLow state (unbound variable in a block, tag not found, layout/arity mismatch, non-package at open) is a violation; non-trivial = programs whose both runs terminate within fuel", self.progs.len()),
+            | Mode::Preservation => format!("every accepted program of the universe, of the System-F / F-omega universe and every runnable repository fixture under lib/tests that lowers ({} candidate programs) is run on the harness's SPSLow reference machine (layout-aware flat products, blocks closed over their own label, host operations = the repository's implementations) and on zydeco_dynamics::Runtime with the same stdin; output bytes and final result must agree; a stuck SPSLow state (unbound variable in a block, tag not found, layout/arity mismatch, non-package at open) is a violation; one run ending while the other is still running after 200 times as many steps is a violation too; non-trivial = programs whose both runs terminate within fuel", self.progs.len()),
         }
     }
     fn timeout(&self) -> std::time::Duration {
@@ -370,7 +397,11 @@ impl Check for Lowered {
                     }
                     | (RunEnd::OutOfFuel, _) | (_, e2::MEnd::OutOfFuel) => {
                         let n = run.output.len().min(m.output.len());
-                        run.output[..n] == m.output[..n]
+                        // one side ended and the other is still running after more than 200 times as many
+                        // steps: the compiled program (or the interpreter) loops where the other terminates
+                        let interpreter_ended_early = !matches!(run.end, RunEnd::OutOfFuel) && matches!(m.end, e2::MEnd::OutOfFuel) && run.steps.saturating_mul(200) < m.steps;
+                        let machine_ended_early = matches!(run.end, RunEnd::OutOfFuel) && !matches!(m.end, e2::MEnd::OutOfFuel) && m.steps.saturating_mul(200) < run.steps;
+                        run.output[..n] == m.output[..n] && !interpreter_ended_early && !machine_ended_early
                     }
                     | (RunEnd::Ret(a), e2::MEnd::Ret(b)) => {
                         nontrivial += 1;
